@@ -7,6 +7,11 @@ HERE = os.path.dirname(os.path.dirname(os.path.abspath(__file__)))
 
 # id -> (engine, technique, level text, level note, design ref)
 CHECKS = {
+    "C06": ("XH", "CrossHair-driven enumeration of commit-graph shapes and branch-head positions (z3 choice variables) with native sweeps over ALL placements of build tags and matching messages; "
+            "stub git repository; reachability oracle from the statement; BranchName order checked symbolically for all non-negative ints",
+            "bounded exhaustive exploration with exhaustion certificate: 16 graph shapes of <= 6 commits x every release-head position x all 2^n tag subsets x all matching subsets; "
+            "symbolic (unbounded ints) total-order check of branch names",
+            "git repository stubbed in memory; commit times inside the window by construction", "DESIGN.md 3/C06"),
     "C10": ("XH", "CrossHair-driven enumeration of rendering histories (z3 choice variables for the first step, native sweep of the rest) over long-lived printable objects, with id() as seen by ak.ppobj "
             "replaced by an adversarial environment stub constrained by CPython's contract; compared with fresh objects / no_color twins through an independent SGR stripper",
             "bounded exhaustive exploration: histories of <= 2 steps exhaustively (<= 3-4 partially) over 5 object kinds x 3 configurations x no_color x explicit/global route; "
